@@ -143,7 +143,7 @@ struct Run
   {
     const S & x = tx.x;
     bool ok     = true;
-    Tan vel, acc;
+    Tan vel = Tan::Constant(std::numeric_limits<double>::quiet_NaN()), acc = vel;   // NaN pre-fill: unwritten outputs are visible
     vel.setOnes();
     acc.setOnes();
     G a      = x(-0.7, vel, acc);
@@ -438,7 +438,7 @@ struct Run
     const MatX Ma = O::mat(ga), H = O::hat(v);
     double e = 0, worst_t = 0, ed = 0;
     for (double t : {0.0, T, 0.5 * T, T * rng.uni(), T * rng.uni()}) {
-      Tan vel, acc;
+      Tan vel = Tan::Constant(std::numeric_limits<double>::quiet_NaN()), acc = vel;   // NaN pre-fill: unwritten outputs are visible
       const G g       = c(t, vel, acc);
       const double ee = merr(O::mat(g), Ma * expm(H * static_cast<ld>(t)));
       if (ee > e) {
